@@ -152,6 +152,13 @@ def exception_violation(e: BaseException, what: str) -> Dict[str, str]:
     return {"key": f"{what}|raises={type(e).__name__}@{where}", "msg": msg}
 
 
+def evidence_dir() -> str:
+    """/verif/evidence, unless a development run against a scratch copy of the repository
+    (tools/trymut.sh, tools/seeded_matrix.sh) redirects it so that committed evidence only ever
+    comes from runs against /repo itself"""
+    return os.environ.get("VERIF_EVIDENCE_DIR") or os.path.join(VERIF, "evidence")
+
+
 # --------------------------------------------------------------------------- driver
 def run_check(
     modname: str,
@@ -329,8 +336,9 @@ def run_check(
         "wall_s": round(time.time() - t0, 2),
         "violations": n_viol,
     }
-    os.makedirs(os.path.join(VERIF, "evidence"), exist_ok=True)
-    with open(os.path.join(VERIF, "evidence", f"{prop}.json"), "w") as f:
+    evdir = evidence_dir()
+    os.makedirs(evdir, exist_ok=True)
+    with open(os.path.join(evdir, f"{prop}.json"), "w") as f:
         json.dump(ev, f, indent=1, default=str)
     print(
         f"{prop} tier={tier} seed={seed} cases={len(results)} executed={len(executed)}"
